@@ -102,6 +102,19 @@ func genTimeFor(rng *rand.Rand, schema string, exact bool) time.Time {
 	case strings.Contains(schema, "string"):
 		return genTime(rng)
 	}
+	// timestamp-millis / -micros cover every year a time.Time is normally used for, not only 1678..2261
+	if (strings.Contains(schema, "micros") || strings.Contains(schema, "millis")) && rng.Intn(3) == 0 {
+		unitNs := 1000
+		if strings.Contains(schema, "millis") {
+			unitNs = 1000000
+		}
+		nsec := rng.Intn(1000000000)
+		if exact {
+			nsec = nsec / unitNs * unitNs
+		}
+		year := []int{1, 1600, 1677, 2262, 2300, 9999, 1 + rng.Intn(9999)}[rng.Intn(7)]
+		return time.Date(year, time.Month(1+rng.Intn(12)), 1+rng.Intn(28), rng.Intn(24), rng.Intn(60), rng.Intn(60), nsec, time.UTC)
+	}
 	// long: instants representable in int64 nanoseconds (1678..2261), boundary-minded
 	var ns int64
 	switch rng.Intn(8) {
@@ -430,8 +443,19 @@ func driveC19(c *driverCtx) error {
 			} else if sch == sMillis {
 				unit = 1e6
 			}
-			lim := int64(math.MaxInt64) / unit
-			stored = append(stored, 0, 1, -1, 999, 1000, 1001, -999, -1000, -1001, 1e6, -1e6, 1e9, -1e9, 86400e3, -86400e3, lim, -lim, lim-1, -lim+1)
+			// every stored long is a legal timestamp of the logical type: the range of the type, not of int64 nanoseconds.
+			// (Go's time.Time covers all of it; year 9999 in milliseconds is 253402300799999.) The plain long is
+			// nanoseconds by the library's convention, so there the range is the int64 itself.
+			lim := int64(math.MaxInt64)
+			if sch == sMillis {
+				lim = 9e16 // (the judge's day number must fit TLC's 32-bit integers: +-2.9 million years)
+			}
+			nsLim := int64(math.MaxInt64) / unit
+			stored = append(stored, 0, 1, -1, 999, 1000, 1001, -999, -1000, -1001, 1e6, -1e6, 1e9, -1e9, 86400e3, -86400e3, nsLim, -nsLim, nsLim-1, -nsLim+1, nsLim+1, -nsLim-1,
+				253402300799999, -62135596800000, lim, -lim, lim-1)
+			if sch != sMillis {
+				stored = append(stored, math.MinInt64, math.MaxInt64)
+			}
 			for k := 0; k < c.pick(400, 150000); k++ {
 				v := int64(c.rng.Uint64()>>uint(c.rng.Intn(63))) % (lim + 1)
 				if c.rng.Intn(2) == 0 {
